@@ -423,10 +423,7 @@ pub fn run_vec_history(h: &VecHistory) -> Result<Facts, Div> {
 }
 
 fn run_inner(h: &VecHistory) -> Result<Facts, Div> {
-    let mut ob: Option<ObservableVector<Tracked>> = Some(ObservableVector::with_capacity(h.capacity));
-    if !h.init.is_empty() {
-        ob.as_mut().unwrap().append(h.init.iter().map(|v| Tracked::new(*v)).collect());
-    }
+    let mut ob: Option<ObservableVector<Tracked>> = Some(crate::vops::make_vector(h.capacity, &h.init));
     let ref_sub = ob.as_ref().unwrap().subscribe();
     let mut mon = Mon {
         capacity: h.capacity,
